@@ -47,6 +47,11 @@ def gen_plan(rng, tier, index, config=None):
             st["unspents"] = [[r.pick([1, 546, 21 * 10**14, 21 * 10**14 + 1, (1 << 63) - 1, 1 << 63, (1 << 64) - 1, r.bits(64) or 1]),
                                r.bytes(r.pick([0, 22, 25, 34])).hex()] for _j in range(nin)]
         steps.append(st)
+    heights = [0, 1, 0xFC, 0xFD, 500000, 0xFFFF, 0x10000, 0x02000000, 0x02000001, (1 << 31) - 1, (1 << 32) - 1]
+    for _ in range(r.between(0, 2)):
+        steps.append({"op": "spendable_rec", "value": r.pick([1, 546, 21 * 10**14, (1 << 63) - 1, (1 << 64) - 1, r.bits(64) or 1]),
+                      "script": r.bytes(r.pick([0, 22, 25, 34, 0xFC, 0xFD, 300])).hex(), "prev": r.bytes(32).hex(),
+                      "idx": r.pick([0, 1, 0xFFFFFFFF, r.bits(32)]), "bia": r.pick(heights), "spent": r.chance(0.3), "bis": r.pick(heights)})
     for _ in range(r.between(0, 3)):
         what = r.pick(["inputs", "outputs", "out_script", "in_script", "witness_item", "witness_count"])
         small = what in ("inputs", "outputs", "witness_count")
